@@ -26,6 +26,10 @@ BUDGET = {  # wall-clock budgets in seconds per phase
 }
 
 
+def replay_dir():
+    return os.environ.get("VERIF_REPLAY_DIR") or os.path.join(VERIF, "replays")
+
+
 def build_ext():
     r = subprocess.run(["sh", os.path.join(VERIF, "sim", "build_simalloc.sh")], capture_output=True, text=True)
     return r.returncode == 0
@@ -240,9 +244,11 @@ def finalize_violation(run, pool, job, res, known):
     kf = match_known(viol, known)
     if kf is not None:
         return "known", kf
-    os.makedirs(os.path.join(VERIF, "replays"), exist_ok=True)
+    rdir = replay_dir()
+    os.makedirs(rdir, exist_ok=True)
     dg = hashlib.sha1(json.dumps(prog, sort_keys=True).encode()).hexdigest()[:10]
-    path = os.path.join(VERIF, "replays", "%s-%s-%s.json" % (run.prop, job.get("run_seed", job.get("id")), dg))
+    tag = str(job.get("run_seed", job.get("id"))).replace(":", "_").replace("+", "_").replace("/", "_")[:80]
+    path = os.path.join(rdir, "%s-%s-%s.json" % (run.prop, tag, dg))
     rec = {"property": run.prop, "verif_seed": run.seed, "run_seed": job.get("run_seed"), "tier": run.tier,
            "job_kind": job.get("kind"), "program": prog, "violation": viol,
            "event_log_digest": mres.get("events_digest"),
